@@ -27,7 +27,7 @@ ASSUMPTIONS = [
     "floats come from a finite pool of renderings (CrossHair realises a symbolic str at float())",
 ]
 
-PHRASES = ("Defaults to ", "defaults to ", "Default value is ", "Default: ")
+PHRASES = ("Defaults to ", "defaults to ", "Default value is ", "Default: ", "defaults to\n", "Defaults to\n", "Default:")
 ANNOUNCE = ("defaults to ", "defaults to\n", "default value is ", "default:")
 DIG = "0123456789"
 
@@ -111,6 +111,18 @@ def codec_int(typ, p, d):
     return type(r2.get("default")) is int and r2["default"] == d and r2["doc"] == _norm(p)
 
 
+def wrapped_break(kind, i, b):
+    """the default sentence wrapped exactly between 'Defaults to' and the value (what fill() produces at an unlucky width)"""
+    vals = {0: ("5", 5), 1: ("-5", -5), 2: ("0", 0), 3: ("True", True), 4: ("False", False), 5: ("0.5", 0.5), 6: ("mnist", "mnist")}
+    text, want = vals[i]
+    sep = ("\n", "\n    ")[b]
+    line = "the value. Defaults to" + sep + text
+    doc, d = extract_default(line, emit_default_doc=True)
+    if isinstance(want, str):
+        return type(d) is str and d.strip() == want
+    return type(d) is type(want) and d == want
+
+
 def codec_bool(typ, p, b):
     p = fixlen(p)
     _, q = set_default_doc(("a", {"doc": p, "default": b, **({"typ": typ} if typ else {})}))
@@ -187,7 +199,8 @@ def obligations(tier, seed):
         for tail in ("", "."):
             for typ in (None, "int") if tier == "quick" else (None, "int", "float"):
                 if tier == "quick" and (pi, tail, typ) not in (
-                    (0, "", None), (0, ".", "int"), (1, ".", None), (2, "", None), (3, ".", None), (3, "", "int")
+                    (0, "", None), (0, ".", "int"), (1, ".", None), (2, "", None), (3, ".", None), (3, "", "int"),
+                    (4, "", None), (5, ".", None), (6, "", None),
                 ):
                     continue
                 obs.append(
@@ -295,6 +308,14 @@ def obligations(tier, seed):
                 path_timeout=60,
             )
         )
+    obs.append(
+        Ob(
+            name="wrapped_break", params=[("i", "int"), ("b", "bool")], pre=["0 <= i <= 6"], body="H.wrapped_break(0, i, b)",
+            witness=(0, False), kind="F",
+            bounds="'Defaults to' followed by a line break (with or without continuation indent) and then the value, for 7 values of every kind",
+            timeout=100,
+        )
+    )
     obs.append(
         Ob(
             name="word_then_default",
